@@ -8,7 +8,7 @@ from harness import tie_explicit
 
 PID = "C09"
 TIE_IMPORTS = ("From LunaModel Require Import ConstGen DescSpec DescSpec_proofs DescRom DescRom_proofs "
-               "DescBlock DescBlock_proofs DescDist DescDist_proofs.\n")
+               "DescBlock DescBlock_proofs DescDist DescDist_proofs DescMux DescMux_proofs.\n")
 
 ASSUMPTIONS = [
     "handler-level environment (s_env / req_legal): a request (start strobe) is made only while the handler is idle; value, "
@@ -34,8 +34,16 @@ ASSUMPTIONS = [
     "(second conjunct of C09_distributed_handler). Without it the product of the generators' state spaces is out of reach",
     "the distributed-handler model is the behaviour WITH findings/C09-dist-zlp.diff; on the unchanged tree the check reports the "
     "violation (ob_dst_* counterexample confirmed on the simulator; also the packet-level oracle and the end-to-end oracle)",
-    "runtime (callable) descriptors of GetDescriptorHandlerDistributed and GetDescriptorHandlerMux are not modelled "
-    "(a separate defect of that configuration is recorded in findings/C09-mux-duplicate-language.json)",
+    "GetDescriptorHandlerMux (block ROM handler for the fixed descriptors + distributed handler for the runtime descriptors, as "
+    "StandardRequestHandler.get_descriptor_handler_submodule builds it) is modelled with runtime descriptors = constant byte strings "
+    "served by USBDescriptorStreamGenerator; arbitrary callables (data that changes at run time, generators that do not follow the "
+    "ConstantStreamGenerator interface) are not modelled. The mux theorem assumes disjoint (type,index) keys of the two parts and "
+    "histories that are legal for the union specification AND for both handlers' own specification machines (a new request only once "
+    "both handlers are idle: the ROM handler takes up to 2 cycles to stall a request that is not its own); the netlist tie uses the "
+    "model-state form mxm_env of the same assumption (ghost register = request of the last start strobe)",
+    "the mux model is the behaviour WITH findings/C09-mux-stall-latch.diff (stall latch ignored in the start cycle) and the targets are "
+    "built through StandardRequestHandler, i.e. WITH findings/C09-mux-duplicate-language.diff the runtime collection no longer gains a "
+    "default language descriptor; on a tree without them the check reports the violation (ob_mux_* counterexample, whole-device oracle)",
     "tie configurations: see obligation_list",
 ]
 
@@ -53,6 +61,12 @@ TINY_A = [(1, 0, [5, 1, 7, 8, 9]), LANG, (3, 2, [8, 3, 1, 2, 3, 4, 5, 6])]      
 TINY_B = [(1, 0, _blob(10, 1)), (2, 0, _blob(16, 2)), LANG, (3, 1, _blob(8, 3))]            # consecutive indexes
 TINY_C = [(2, 1, _blob(3, 4)), (2, 5, _blob(12, 5)), LANG, (6, 0, _blob(1, 6))]             # sparse, type gap, length 1
 TINY_D = [(1, 0, _blob(6, 7)), LANG]                                                        # smallest direct-index collection
+
+
+# mux configurations: (fixed descriptors -> block ROM, runtime descriptors -> distributed handler behind GetDescriptorHandlerMux)
+LANG6 = (3, 0, [6, 3, 9, 4, 7, 4])        # differs from the language descriptor DeviceDescriptorCollection adds by default
+MUX_A = dict(fixed=[(1, 0, [5, 1, 7, 8, 9]), LANG6], runtime=[(3, 2, [8, 3, 1, 2, 3, 4, 5, 6])])
+MUX_B = dict(fixed=[(1, 0, _blob(6, 21)), LANG6, (3, 1, _blob(4, 22))], runtime=[(2, 0, _blob(3, 23)), (3, 5, _blob(9, 24))])
 
 
 def repo_test_collection():
@@ -140,6 +154,46 @@ def mk(name, kind, triples, mps, big):
     return t
 
 
+def mk_mux(name, cfg, mps, big):
+    """The handler StandardRequestHandler.get_descriptor_handler_submodule() builds for a collection with runtime
+    descriptors (each runtime descriptor = a callable returning a USBDescriptorStreamGenerator over constant bytes)."""
+    fixed, runtime = cfg["fixed"], cfg["runtime"]
+
+    def build():
+        from usb_protocol.emitters import DeviceDescriptorCollection
+        from luna.gateware.usb.request.standard import StandardRequestHandler
+        from luna.gateware.usb.usb2.descriptor import USBDescriptorStreamGenerator, GetDescriptorHandlerMux
+        c = DeviceDescriptorCollection()
+        for ty, ix, data in fixed:
+            c.add_descriptor(bytes(data), index=ix, descriptor_type=ty)
+        for ty, ix, data in runtime:
+            c.add_descriptor((lambda b: (lambda: USBDescriptorStreamGenerator(b)))(bytes(data)), index=ix, descriptor_type=ty)
+        import warnings
+        with warnings.catch_warnings():
+            warnings.simplefilter("ignore")
+            d = StandardRequestHandler(c, max_packet_size=mps, avoid_blockram=False).get_descriptor_handler_submodule()
+        assert isinstance(d, GetDescriptorHandlerMux)
+        ins = [("value", d.value), ("length", d.length), ("start", d.start), ("start_position", d.start_position),
+               ("ready", d.tx.ready)]
+        outs = [("valid", d.tx.valid), ("first", d.tx.first), ("last", d.tx.last), ("payload", d.tx.payload),
+                ("stall", d.stall)]
+        return d, ins, outs
+    t = Target(name, build)
+    t.params = dict(kind="mux", triples=fixed + runtime, fixed=fixed, runtime=runtime, mps=mps)
+    t.big = big
+    t.coll = coq_coll(fixed + runtime)          # the union collection (specification side)
+    t.cfg = f"{{| x_fixed := {coq_coll(fixed)}; x_runtime := {coq_coll(runtime)}; x_mps := {mps} |}}"
+    orig = t.simulate
+
+    def simulate(traces, _orig=orig, _t=t):
+        r = _orig(traces)
+        if len(traces) > 1:
+            _t.last_sim = (traces, r)
+        return r
+    t.simulate = simulate
+    return t
+
+
 _cache = {}
 
 
@@ -158,6 +212,10 @@ def targets(tier):
     if tier != "quick":
         ts.append(mk("dst_tinyD_mps4", "dist", TINY_D, 4, False))
         ts.append(mk("dst_tinyC_mps4", "dist", TINY_C, 4, False))
+    ts.append(mk_mux("mux_A_mps4", MUX_A, 4, False))
+    if tier != "quick":
+        ts.append(mk_mux("mux_B_mps4", MUX_B, 4, False))
+    ts.append(mk_mux("mux_repo_mps64", dict(fixed=repo_test_collection(), runtime=[(3, 0xEE, _blob(12, 31)), (0x30, 0, _blob(64, 32))]), 64, True))
     ts.append(mk("blk_repo_mps64", "block", repo_test_collection(), 64, True))
     ts.append(mk("dst_repo_mps64", "dist", repo_test_collection(), 64, True))
     nrand = 0 if tier == "quick" else 5
@@ -258,6 +316,15 @@ def traces(target, rng, tier):
         adversarial = (k % 5 == 4)
         out.append(gen_trace(rng, p["triples"], p["mps"], rng.choice([2, 3, 4] if tier == "quick" else [2, 4, 6]), adversarial))
     target.legal = [k % 5 != 4 for k in range(n)]
+    if p["kind"] == "mux":
+        # outside the protocol on purpose: start strobes in consecutive cycles (stall latches vs. an overlapping request)
+        pres = _present(p["triples"]); maxt = max(x[0] for x in p["fixed"])
+        tr = []
+        for v in (((maxt + 1) & 0xFF) << 8, (sorted(pres)[0][0] << 8) | 0xFD, (sorted(pres)[-1][0] << 8) | sorted(pres)[-1][1]):
+            for st in (1, 1, 0, 0, 0, 0, 1, 0, 1, 0, 0, 0, 0, 0):
+                tr.append(dict(value=v, length=255, start=st, start_position=0, ready=1))
+            _one_request(rng, p["triples"], p["mps"], (sorted(pres)[0][0] << 8) | sorted(pres)[0][1], 255, 0, 1.0, tr)
+        out.append(tr); target.legal.append(False)
     _cache[key] = out
     return out
 
@@ -314,6 +381,24 @@ def obligations(targets, tier):
                 wf_m0="apply bk_wf_init.", alphabet=core.nlist(alpha), fuel=100000,
                 describe=f"{t.name}: netlist == block handler model on ALL input histories over {len(alpha)} input words "
                          f"(no environment assumption; see alphabet_for)"))
+        elif p["kind"] == "mux":
+            cfg = f"({t.cfg})"
+            if t.big:
+                obs.append(tie.corr(f"corr_{t.name}", t, mstep=f"mxm_step {cfg}", m0=f"mxm_init {cfg}",
+                                    describe=f"{t.name}: mux(block ROM handler, distributed handler) model vs simulator, "
+                                             f"{len(p['fixed'])} fixed + {len(p['runtime'])} runtime descriptors, max packet {p['mps']}, "
+                                             f"request sequences across both handlers, legal and adversarial"))
+                continue
+            alpha = alphabet_for(p["triples"], p["mps"], tier)
+            t.alpha_size = len(alpha)
+            obs.append(tie_explicit.rlock_alpha(
+                f"ob_{t.name}", t, St="mxm_state", mstep=f"mxm_step {cfg}", enc=f"mxm_enc {cfg}", dec=f"mxm_dec {cfg}",
+                wf=f"mxm_wf {cfg}", dec_enc=f"mxm_dec_enc {cfg}", wf_step=f"mxm_wf_step {cfg}", m0=f"mxm_init {cfg}",
+                wf_m0="apply mxm_wf_init; vm_compute; reflexivity.", alphabet=core.nlist(alpha), fuel=100000,
+                env=f"mxm_env {cfg}",
+                describe=f"{t.name}: GetDescriptorHandlerMux netlist (as built by StandardRequestHandler for {len(p['fixed'])} fixed + "
+                         f"{len(p['runtime'])} runtime descriptors) == mux model on all request SEQUENCES over {len(alpha)} input words that "
+                         f"respect mxm_env (one request at a time, made when both handlers are idle, inputs held, legal offsets)"))
         else:
             gens = f"(dist_gens {t.coll})"; mps = p["mps"]
             if t.big:
@@ -347,6 +432,22 @@ Theorem C09_{t.name} : forall tr, Forall (fun i => In i ob_{t.name}.alpha) tr ->
 Proof.
   intros tr H HE. rewrite (ob_{t.name}_T.tie tr H (env_ok_true _ _ _ _)).
   apply block_refines; [vm_compute; reflexivity | lia | exact HE].
+Qed.
+"""
+        elif p["kind"] == "mux":
+            cF, cR, mps = coq_coll(p["fixed"]), coq_coll(p["runtime"]), p["mps"]
+            specU = f"(s_step (resp_mux {cF} {cR} {mps}) (mx_lat {cF} {cR}))"
+            s += f"""
+Theorem C09_{t.name} : forall tr, Forall (fun i => In i ob_{t.name}.alpha) tr ->
+  env_ok sstate {specU} (s_env (legal_mux {cF} {cR})) SIdle tr = true ->
+  env_ok sstate (s_step (resp_of {cF} {mps}) (bk_lat {cF})) (s_env (req_legal {cF})) SIdle tr = true ->
+  env_ok sstate (s_step (resp_of {cR} {mps}) (ds_lat {cR})) (s_env (req_legal {cR})) SIdle tr = true ->
+  env_ok mxm_state (mxm_step ({t.cfg})) (mxm_env ({t.cfg})) (mxm_init ({t.cfg})) tr = true ->
+  run {t.modname}.step {t.modname}.init tr = run {specU} SIdle tr.
+Proof.
+  intros tr H EU EB ED EM. rewrite (ob_{t.name}_T.tie tr H EM).
+  apply (mux_refines {cF} {cR} {mps}); [vm_compute; reflexivity | vm_compute; reflexivity | vm_compute; reflexivity
+                                         | vm_compute; reflexivity | lia | exact EU | exact EB | exact ED].
 Qed.
 """
         else:
@@ -434,12 +535,14 @@ def spec_oracles(tier, rng, bdir, cov):
         legal = [k for k in range(len(trs)) if t.legal[k]]
         tin = [[t.pack_in(c) for c in trs[k]] for k in legal]
         tout = [[t.pack_out(o) for o in outs[k]] for k in legal]
-        p = t.params; lat = "bk_lat" if p["kind"] == "block" else "ds_lat"
+        p = t.params
+        lat = {"block": "bk_lat", "dist": "ds_lat", "mux": "mx_lat"}[p["kind"]]
         defs += (f"Definition co_{t.name} := {t.coll}.\n"
                  f"Definition in_{t.name} : list (list N) := [" + ";\n ".join(core.nlist(x) for x in tin) + "].\n" +
                  f"Definition out_{t.name} : list (list N) := [" + ";\n ".join(core.nlist(x) for x in tout) + "].\n")
+        lat_e = f"mx_lat {coq_coll(p['fixed'])} {coq_coll(p['runtime'])}" if p["kind"] == "mux" else f"{lat} co_{t.name}"
         qs.append((f"ev_{t.name}", f"map (fun p => events_code co_{t.name} {p['mps']} (fst p) (snd p)) (combine in_{t.name} out_{t.name})"))
-        qs.append((f"cy_{t.name}", f"map (fun p => spec_check (resp_of co_{t.name} {p['mps']}) ({lat} co_{t.name}) (req_legal co_{t.name}) "
+        qs.append((f"cy_{t.name}", f"map (fun p => spec_check (resp_of co_{t.name} {p['mps']}) ({lat_e}) (req_legal co_{t.name}) "
                                    f"0 SIdle (fst p) (snd p)) (combine in_{t.name} out_{t.name})"))
         meta.append((t, legal))
     if not ts:
@@ -481,7 +584,7 @@ def e2e_requests(tier, rng):
     return reqs
 
 
-def e2e_run(avoid_blockram, reqs):
+def e2e_run(avoid_blockram, reqs, runtime=()):
     """Drive a full USBDevice (standard control endpoint) over UTMI with LUNA's own host-side helpers; for every request
     return the data packets received and whether the data stage was STALLed (or the exception that ended it)."""
     import unittest
@@ -501,7 +604,12 @@ def e2e_run(avoid_blockram, reqs):
             yield self.utmi.tx_ready.eq(1)
 
         def provision_dut(self, dut):
-            dut.add_standard_control_endpoint(collection_of(E2E), avoid_blockram=avoid_blockram)
+            coll = collection_of(E2E)
+            if runtime:
+                from luna.gateware.usb.usb2.descriptor import USBDescriptorStreamGenerator
+                for ty, ix, data in runtime:
+                    coll.add_descriptor((lambda b: (lambda: USBDescriptorStreamGenerator(b)))(bytes(data)), index=ix, descriptor_type=ty)
+            dut.add_standard_control_endpoint(coll, avoid_blockram=avoid_blockram)
 
         def read_stage(self, value, wlen):
             yield from self.setup_transaction(0x80, 6, value, 0, wlen)
@@ -546,20 +654,29 @@ def e2e_run(avoid_blockram, reqs):
     return results
 
 
+E2E_RUNTIME = [(3, 0xEE, _blob(12, 31)), (0x30, 0, _blob(70, 32))]
+E2E_MUX_REQS = [((3 << 8) | 0xEE, 255), ((1 << 8) | 0, 64), ((0x30 << 8) | 0, 255), ((0x22 << 8) | 0, 1024), ((3 << 8) | 0, 255),
+                ((5 << 8) | 0, 8), ((2 << 8) | 0, 255), ((3 << 8) | 0xEE, 8)]
+
+
 def e2e_check(tier, rng, bdir, cov):
     reqs = e2e_requests(tier, rng)
-    coll = coq_coll(E2E)
-    for avoid in (False, True):
-        name = "e2e_device_" + ("distributed" if avoid else "block")
-        res = e2e_run(avoid, reqs)
+    variants = [("e2e_device_block", False, (), reqs, "block ROM handler"),
+                ("e2e_device_distributed", True, (), reqs, "LUNA_AVOID_BLOCKRAM (distributed) handler"),
+                ("e2e_device_mux", False, E2E_RUNTIME, E2E_MUX_REQS,
+                 "GetDescriptorHandlerMux: block ROM handler + distributed handler for two runtime descriptors; request sequence "
+                 "runtime -> ROM -> runtime -> ROM -> STRING 0 -> absent -> ROM -> runtime")]
+    for name, avoid, runtime, rq, what in variants:
+        coll = coq_coll(E2E + list(runtime))
+        res = e2e_run(avoid, rq, runtime)
         defs = f"Definition co := {coll}.\n"
         codes = "[" + "; ".join(f"stage_code co 64 {v} {w} {_coq_pkts(pk)} {'true' if st else 'false'}" for v, w, pk, st, err in res if not err) + "]"
-        out = core.coq_eval(bdir, "E2E_C09_" + ("d" if avoid else "b"), tie.HEADER + TIE_IMPORTS, defs, [("codes", codes)])
+        out = core.coq_eval(bdir, "E2E_C09_" + name[11:], tie.HEADER + TIE_IMPORTS, defs, [("codes", codes)])
         bad = core.parse_nums(out["codes"]) if out["codes"].strip() != "[]" else []
         cov["correspondence"].append(dict(obligation=name, target="USBDevice + standard control endpoint", traces=len(res), cycles=0,
-                                          describe=f"whole device ({'LUNA_AVOID_BLOCKRAM' if avoid else 'block ROM'} handler) driven over UTMI by "
-                                                   f"LUNA's host-side test helpers: packets of each GET_DESCRIPTOR data stage == data_stage over "
-                                                   f"respond (start_position bookkeeping of StandardRequestHandler included)"))
+                                          describe=f"whole device ({what}) driven over UTMI by LUNA's host-side test helpers: packets of each "
+                                                   f"GET_DESCRIPTOR data stage == data_stage over respond (start_position bookkeeping of "
+                                                   f"StandardRequestHandler included)"))
         k = 0
         for v, w, pk, st, err in res:
             failed = bool(err) or bool(bad[k] if k < len(bad) else 0)
@@ -568,7 +685,8 @@ def e2e_check(tier, rng, bdir, cov):
                 return dict(property=PID, obligation=name, target="USBDevice", confirmed_on_pysim=True,
                             reason=("GET_DESCRIPTOR data stage differs from the specification" if not err else
                                     "the device misbehaved on the wire during a GET_DESCRIPTOR: " + err),
-                            inputs=[dict(wValue=v, wLength=w, avoid_blockram=avoid, descriptors=E2E)],
+                            inputs=[dict(wValue=v, wLength=w, avoid_blockram=avoid, descriptors=E2E, runtime_descriptors=list(runtime),
+                                         requests_so_far=[(a, b) for a, b, *_ in res])],
                             outputs=[dict(packets=pk, stalled=st)],
                             how="full USBDevice simulated with Amaranth's simulator, host side = luna.gateware.test.usb2.USBDeviceTest")
     return None
@@ -595,7 +713,13 @@ LEVEL_TEXT = (
     "equals the same specification machine for every collection of non-empty descriptors (C09_distributed_handler). (4) The netlists "
     "regenerated from /repo are proved equal to the models on all traces over explicit request alphabets (block: no environment "
     "assumption; distributed: under ds_env, which legal histories satisfy), giving netlist = specification corollaries C09_<target>. "
-    "The model is the property-satisfying behaviour: the UNCHANGED /repo FAILS for GetDescriptorHandlerDistributed (zero-length packets: "
+    "(5) GetDescriptorHandlerMux: the mux of the two handler models (repaired stall latching) equals the specification machine of the "
+    "union collection for all disjoint fixed/runtime collections and all request sequences legal for the three specification machines "
+    "(C09_mux_handler via C09_mux_of_specs: no stall for an existing descriptor whatever the previous request was, one stall pulse and no "
+    "data for an absent one, data from exactly one handler); netlist tie + corollary C09_mux_<target>, whole-device scenario with runtime "
+    "descriptors. The mux as in /repo before the two C09-mux diffs FAILS (spurious STALL of a ROM descriptor after a runtime one; STRING 0 "
+    "answered by both handlers) -- findings/C09-mux-*.json/.diff. "
+    "The model is the property-satisfying behaviour: the pre-9ef863f /repo FAILED for GetDescriptorHandlerDistributed (zero-length packets: "
     "descriptor data re-sent when the length is a power of two; otherwise a ZLP-shaped beat held forever, which the packet generator "
     "turns into endless ZLPs) -- findings/C09-dist-zlp.json/.diff; with the patch applied the check passes. The block-ROM handler holds.")
 LEVEL_NOTE = (
@@ -606,7 +730,7 @@ LEVEL_NOTE = (
     "correspondence plus the specification oracles (packet-level and cycle-level) on simulator traces. The connection between the "
     "handler ports and the wire (IN tokens -> start, ACK -> start_position += mps in StandardRequestHandler, USBDataPacketGenerator) is "
     "covered by the end-to-end oracle (whole USBDevice driven over UTMI for both handlers), not by a theorem. Latency (bk_lat/ds_lat) is a "
-    "parameter of the specification machine. Not modelled: GetDescriptorHandlerMux and runtime (callable) descriptors; a request with "
+    "parameter of the specification machine. Not modelled: runtime descriptors other than constant byte strings; a request with "
     "start_position = wLength (a host asking for more than it requested) is outside req_legal -- both handlers answer it with a ZLP "
     "(model mirrors the code; the block netlist tie covers it).")
 TECHNIQUE = ("Rocq proof: list-level induction for the host loop; simulation relations between code-shaped FSM models (block ROM walker incl. "
